@@ -117,6 +117,7 @@ func Run(args []string) *rep.Report {
 		bc := *cfg
 		bc.HTTP = *httpEvery > 0 && idx%*httpEvery == 0
 		NoTimeMode = 0
+		LateCancel = idx%3 == 1
 		if idx%5 == 2 {
 			NoTimeMode = 1 + (idx/5)%2 // a fifth of the behaviours: the oldest version of every record carries no (usable) advertisement time
 		}
